@@ -175,7 +175,25 @@ def r3_rebuild_from_nothing(ctx):
             b = st.value.func.value
             if isinstance(b, ast.Attribute) and is_self_attr(b.value, "dispatch", selfname=rv):
                 parts.append((st, b.attr + ".update"))
-    ctx.require(len(parts) >= 3, "the build no longer publishes the generated entry point part by part")
+    # parts copied by a loop over attribute names with setattr
+    looped = set()
+    for lp in ast.walk(build.node):
+        if isinstance(lp, ast.For) and isinstance(lp.iter, (ast.Tuple, ast.List)) and all(isinstance(e, ast.Constant) and isinstance(e.value, str) for e in lp.iter.elts):
+            if any(isinstance(c, ast.Call) and call_name(c) == "setattr" and len(c.args) == 3 and isinstance(c.args[0], ast.Attribute) and is_self_attr(c.args[0], "dispatch", selfname=rv) and dotted(c.args[1]) == dotted(lp.target) for c in ast.walk(lp)):
+                looped |= {e.value for e in lp.iter.elts}
+    from .more import entry_parts_unconditional
+
+    entry_parts_unconditional(ctx)
+    ctx.require(len(parts) + len(looped) >= 3, "the build no longer publishes the generated entry point part by part")
+    published = {w for _, w in parts} | looped
+    need = {"__code__", "__defaults__", "__kwdefaults__"}
+    ctx.ob(
+        f"{build.key}:republish:call-relevant-parts",
+        build.loc(),
+        "the build publishes the code, the positional defaults and the keyword defaults of the generated entry point (the parts of a function object that decide how a call binds)",
+        need <= published,
+        f"{sorted(need - published)} of the generated entry point is never copied to the live one: optional parameters of the new method set have no MISSING default there",
+    )
     for st, what in parts:
         ctx.ob(
             f"{build.key}:republish:{what}",
@@ -258,8 +276,19 @@ def r2(ctx):
     r3_linkback(ctx)
 
 
+def _more(name):
+    def run(ctx):
+        from . import more
+
+        getattr(more, name)(ctx)
+
+    run.__name__ = name
+    return run
+
+
 RULES = [
     ("C05.R1", "P1", r1_derived_tables_flushed, "every derived table is flushed or re-derived"),
     ("C05.R2", "P1", r2, "every mutator rebuilds"),
     ("C05.R3", "P1", r3_rebuild_from_nothing, "a rebuild starts from nothing"),
+    ("C05.R4", "P1", _more("removal_is_exhaustive"), "unregistering removes every signature of the function"),
 ]
